@@ -7,8 +7,8 @@ from props import fam_sym
 
 MANIFEST = dict(
     technique='Coq proof (phase transport over Z/24 for every group, list and symmetry-consistent phase function) + differential check + sphere-function oracles on gemmi',
-    text='ensure_asu is also run on a file with two datasets that use the same (+)/(-) labels (each pair must be swapped within its own dataset). Theorems for every row of the regenerated table, both ASU conventions and every hkl: ensure_asu never fails; the phase it stores after moving a reflection (shift -(h.t) of the ORIGINAL index, negation for Friedel mates) is the true phase of the new index for any phase function obeying F(hR)=F(h)exp(-2 pi i h.t) and Friedel law; original -> (ASU index, ISYM) -> original restores unmerged indices; expand_to_p1 (for ANY operation list and hkl): the original and its copies are pairwise distinct with no Friedel pair, every image of every operation is present itself or as its mate (whole orbit for every table group), and each copy carries the phase shift of the operation that produced it, hence the true phase of its index. The index/phase/(+)/(-)-swap bookkeeping model is compared exactly with Mtz::ensure_asu, AsuData::ensure_asu and Mtz::expand_to_p1 (order, indices and phase shifts of the appended rows) on every row; oracles on gemmi compare F, phase, HL coefficients, F(+)/F(-)/DANO of transformed lists (ensure_asu, AsuData::ensure_asu, expand_to_p1) with structure factors of a point-atom model, check unmerged original<->ASU round trips with M/ISYM flags, and reindexing (d-spacing, absences, centricity, epsilon preserved; undone by the inverse operator).',
-    note='Trusted: Coq kernel + vm_compute; translator; extraction; harness (its point-atom structure-factor oracle in double precision, tolerances 1e-3 relative on amplitudes, 0.05 degree on phases). No axioms. HL rotation and reindexing are decided by the oracles only (no theorem).')
+    text='ensure_asu is also run on a file with two datasets that use the same (+)/(-) labels (each pair must be swapped within its own dataset). Theorems for every row of the regenerated table, both ASU conventions and every hkl: ensure_asu never fails; the phase it stores after moving a reflection (shift -(h.t) of the ORIGINAL index, negation for Friedel mates) is the true phase of the new index for any phase function obeying F(hR)=F(h)exp(-2 pi i h.t) and Friedel law; original -> (ASU index, ISYM) -> original restores unmerged indices; expand_to_p1 (for ANY operation list and hkl): the original and its copies are pairwise distinct with no Friedel pair, every image of every operation is present itself or as its mate (whole orbit for every table group), and each copy carries the phase shift of the operation that produced it, hence the true phase of its index. RE-INDEXING (Move/Reindex.v): with new index hP and new operation P^-1 g P computed as GroupOps::change_basis_impl does, in the integer arithmetic of the library (the exact divisions the code performs are the hypotheses), the relabelled operation acts on the relabelled index as the old one on the old index, with the same phase shift modulo whole turns, an operation fixing an index becomes one fixing its new label (absences, centricity, epsilon preserved) and the inverse operator restores the index. The index/phase/(+)/(-)-swap bookkeeping model is compared exactly with Mtz::ensure_asu, AsuData::ensure_asu and Mtz::expand_to_p1 (order, indices and phase shifts of the appended rows) on every row; oracles on gemmi compare F, phase, HL coefficients, F(+)/F(-)/DANO of transformed lists (ensure_asu, AsuData::ensure_asu, expand_to_p1) with structure factors of a point-atom model, check unmerged original<->ASU round trips with M/ISYM flags, and reindexing (d-spacing, absences, centricity, epsilon preserved; undone by the inverse operator).',
+    note='Trusted: Coq kernel + vm_compute; translator; extraction; harness (its point-atom structure-factor oracle in double precision, tolerances 1e-3 relative on amplitudes, 0.05 degree on phases). No axioms. HL rotation is decided by the oracles only (no theorem); reindexing: theorem per operation, the new cell, the space-group lookup and the row removal by the oracle.')
 
 
 def run(chk):
